@@ -52,8 +52,8 @@ Qed.
 
 (* ---------- what run_model / run_spec are for each kind (by computation of the kind tests) ---------- *)
 Section Unfold.
-  Variables (rows : list (list Z)) (runs : list run) (pw : list (Z * Z)) (route : Z) (idx : list Z) (out : option (list (list Z))).
-  Let C k := {| k_kind := k; k_rows := rows; k_runs := runs; k_pow := pw |}.
+  Variables (rows : list (list Z)) (runs : list run) (pw : list (Z * Z)) (er : list (Z * Z)) (af : option (list (list Z))) (route : Z) (idx : list Z) (out : option (list (list Z))).
+  Let C k := {| k_kind := k; k_rows := rows; k_runs := runs; k_pow := pw; k_errs := er; k_after := af |}.
   Let sel := select rows idx.
   Lemma model0 : run_model (C 0) (route, idx, out) = opt_eqb zll_eqb out (Some (fmt_ints (map hd0 sel))).
   Proof. reflexivity. Qed.
@@ -98,11 +98,11 @@ End Unfold.
 
 (* ---------- kind 0: formatting integers ---------- *)
 Definition wf_int_row (r : list Z) : Prop := exists n, r = [n] /\ int64 n.
-Theorem link_format_ints rows runs pw route idx out :
+Theorem link_format_ints rows runs pw er af route idx out :
   fmt_ints = ints_to_strings ->
   Forall wf_int_row rows -> idx_ok rows idx ->
-  run_model {| k_kind := 0; k_rows := rows; k_runs := runs; k_pow := pw |} (route, idx, out) = true ->
-  run_spec {| k_kind := 0; k_rows := rows; k_runs := runs; k_pow := pw |} (route, idx, out) = true.
+  run_model {| k_kind := 0; k_rows := rows; k_runs := runs; k_pow := pw; k_errs := er; k_after := af |} (route, idx, out) = true ->
+  run_spec {| k_kind := 0; k_rows := rows; k_runs := runs; k_pow := pw; k_errs := er; k_after := af |} (route, idx, out) = true.
 Proof.
   intros Efmt Hwf Hi H. rewrite model0 in H. rewrite spec_k by discriminate.
   apply opt_zll_some in H. subst out.
@@ -138,10 +138,10 @@ Proof.
   - rewrite <- (unsigned_text_value t) by (apply G; left; reflexivity). split; assumption.
   - apply IH. intros t' Hin. apply G. right. exact Hin.
 Qed.
-Theorem link_parse_ints rows runs pw route idx out :
+Theorem link_parse_ints rows runs pw er af route idx out :
   Forall wf_int_text rows -> idx_ok rows idx ->
-  run_model {| k_kind := 1; k_rows := rows; k_runs := runs; k_pow := pw |} (route, idx, out) = true ->
-  run_spec {| k_kind := 1; k_rows := rows; k_runs := runs; k_pow := pw |} (route, idx, out) = true.
+  run_model {| k_kind := 1; k_rows := rows; k_runs := runs; k_pow := pw; k_errs := er; k_after := af |} (route, idx, out) = true ->
+  run_spec {| k_kind := 1; k_rows := rows; k_runs := runs; k_pow := pw; k_errs := er; k_after := af |} (route, idx, out) = true.
 Proof.
   intros Hwf Hi H. rewrite model1 in H. rewrite spec_k by discriminate.
   pose proof (select_wf _ _ _ Hwf Hi) as Hs. remember (select rows idx) as sel eqn:Esel. clear Esel.
@@ -156,11 +156,11 @@ Qed.
 (* ---------- kind 2: formatting integer lists ---------- *)
 Lemma canonical_no_comma t n : text_value t = Some n -> ~ In 44 t.
 Proof. intros H. exact (proj1 (text_value_no_comma t n H)). Qed.
-Theorem link_format_lists rows runs pw route idx out :
+Theorem link_format_lists rows runs pw er af route idx out :
   fmt_int_lists = int_lists_to_strings ->
   Forall (Forall int64) rows -> idx_ok rows idx ->
-  run_model {| k_kind := 2; k_rows := rows; k_runs := runs; k_pow := pw |} (route, idx, out) = true ->
-  run_spec {| k_kind := 2; k_rows := rows; k_runs := runs; k_pow := pw |} (route, idx, out) = true.
+  run_model {| k_kind := 2; k_rows := rows; k_runs := runs; k_pow := pw; k_errs := er; k_after := af |} (route, idx, out) = true ->
+  run_spec {| k_kind := 2; k_rows := rows; k_runs := runs; k_pow := pw; k_errs := er; k_after := af |} (route, idx, out) = true.
 Proof.
   intros Efmt Hwf Hi H. rewrite model2 in H. rewrite spec_k by discriminate.
   apply opt_zll_some in H. subst out. rewrite Efmt, int_lists_join.
@@ -193,11 +193,11 @@ Proof.
   pose proof (text_value_no_comma t v Hv) as [_ Hne].
   destruct ts as [|t2 ts]; cbn [intercalate] in E; [congruence|]. destruct t; [congruence|discriminate].
 Qed.
-Theorem link_parse_lists rows runs pw route idx out :
+Theorem link_parse_lists rows runs pw er af route idx out :
   parse_lists = parse_split_ints ->
   Forall wf_list_text rows -> idx_ok rows idx ->
-  run_model {| k_kind := 3; k_rows := rows; k_runs := runs; k_pow := pw |} (route, idx, out) = true ->
-  run_spec {| k_kind := 3; k_rows := rows; k_runs := runs; k_pow := pw |} (route, idx, out) = true.
+  run_model {| k_kind := 3; k_rows := rows; k_runs := runs; k_pow := pw; k_errs := er; k_after := af |} (route, idx, out) = true ->
+  run_spec {| k_kind := 3; k_rows := rows; k_runs := runs; k_pow := pw; k_errs := er; k_after := af |} (route, idx, out) = true.
 Proof.
   intros Ep Hwf Hi H. rewrite model3 in H. rewrite spec_k by discriminate.
   pose proof (select_wf _ _ _ Hwf Hi) as Hs. remember (select rows idx) as sel eqn:Esel. clear Esel.
@@ -218,10 +218,10 @@ Qed.
 
 (* ---------- kind 6: the digit matrix of a buffer ---------- *)
 Definition wf_iv_row (data : list Z) (r : list Z) : Prop := iv_ok data (iv_of r).
-Theorem link_digit_matrix data ivrows runs pw route idx out :
+Theorem link_digit_matrix data ivrows runs pw er af route idx out :
   Forall (wf_iv_row data) ivrows -> Forall (fun i => 1 <= i < 1 + len ivrows) idx ->
-  run_model {| k_kind := 6; k_rows := data :: ivrows; k_runs := runs; k_pow := pw |} (route, idx, out) = true ->
-  run_spec {| k_kind := 6; k_rows := data :: ivrows; k_runs := runs; k_pow := pw |} (route, idx, out) = true.
+  run_model {| k_kind := 6; k_rows := data :: ivrows; k_runs := runs; k_pow := pw; k_errs := er; k_after := af |} (route, idx, out) = true ->
+  run_spec {| k_kind := 6; k_rows := data :: ivrows; k_runs := runs; k_pow := pw; k_errs := er; k_after := af |} (route, idx, out) = true.
 Proof.
   intros Hwf Hi H. rewrite model6 in H. rewrite spec6.
   apply opt_zll_some in H. subst out. cbn [nth]. unfold matrix_spec.
@@ -242,11 +242,11 @@ Proof.
   induction 1 as [|t sel [x [E Hx]] _ [xs [E2 F]]]; [exists []; split; constructor|].
   exists (x :: xs). split; [cbn [map]; congruence|constructor; assumption].
 Qed.
-Theorem link_parse_floats rows runs pw route idx out :
+Theorem link_parse_floats rows runs pw er af route idx out :
   parse_floats = str_to_float_rows ->
   Forall wf_float_text rows -> idx_ok rows idx ->
-  run_model {| k_kind := 4; k_rows := rows; k_runs := runs; k_pow := pw |} (route, idx, out) = true ->
-  run_spec {| k_kind := 4; k_rows := rows; k_runs := runs; k_pow := pw |} (route, idx, out) = true.
+  run_model {| k_kind := 4; k_rows := rows; k_runs := runs; k_pow := pw; k_errs := er; k_after := af |} (route, idx, out) = true ->
+  run_spec {| k_kind := 4; k_rows := rows; k_runs := runs; k_pow := pw; k_errs := er; k_after := af |} (route, idx, out) = true.
 Proof.
   intros Ep Hwf Hi H. rewrite model4 in H. rewrite spec_k by discriminate.
   pose proof (select_wf _ _ _ Hwf Hi) as Hs. remember (select rows idx) as sel eqn:Esel. clear Esel.
